@@ -12,7 +12,9 @@ import (
 	"sort"
 	"strings"
 	"sync"
+	"sync/atomic"
 	"testing"
+	"time"
 
 	"honnef.co/go/tools/go/ir"
 	"honnef.co/go/tools/go/ir/irutil"
@@ -23,7 +25,7 @@ import (
 
 func TestMain(m *testing.M) { ev.Main(m) }
 
-const rule = "case = (generated multi-package program with 3-6 packages: cross-package generic instances requested from several packages, structs embedding structs/pointers/interfaces of another package (promoted-method wrappers), method values and method expressions (bound closures, thunks); builder mode in {BuildSerially}x{InstantiateGenerics}; a drawn schedule: Program.Build, per-package Build from goroutines in a drawn order, duplicate concurrent Build calls, partial build of a subset first, MethodValue calls racing with builds); oracle = canonical dump (WriteTo text, value names renumbered) of every function equal to the serial reference build, second Build changes nothing, shared synthetic callees have bodies when a package's Build returns, one *Function per name, and the whole test binary runs under the race detector; non-trivial = some function instance or wrapper is referenced from >=2 packages; distinct by (program hash, schedule)"
+const rule = "case = (generated multi-package program with 3-6 packages: cross-package generic instances requested from several packages, structs embedding structs/pointers/interfaces of another package (promoted-method wrappers), method values and method expressions (bound closures, thunks); builder mode in {BuildSerially}x{InstantiateGenerics}; a drawn schedule: Program.Build, per-package Build from goroutines in a drawn order, duplicate concurrent Build calls, partial build of a subset first, MethodValue calls racing with builds, K callers of MethodValue for the same selections at once on unbuilt programs (oracle: a serial pass), and gated schedules: a controller script of start/release steps parks each package's builder at calls to its gate function through the Program.SetNoReturn predicate while the process runs on one P, so the interleaving is owned by the harness); oracle = canonical dump (WriteTo text, value names renumbered) of every function equal to the serial reference build, second Build changes nothing, shared synthetic callees have bodies when a package's Build returns, one *Function per name, and the whole test binary runs under the race detector; non-trivial = some function instance or wrapper is referenced from >=2 packages; distinct by (program hash, schedule)"
 
 // ---------------------------------------------------------------- program generator
 
@@ -62,6 +64,21 @@ func Wrap[T any](v T) *Box[T] { return &Box[T]{V: Sum2(v)} }
 
 func Sum2[T any](v T) T { return v }
 
+func Chain2[T any](v T) T { return Sum2(v) }
+
+func Chain3[T any](v T) T { return Chain2(Sum2(v)) }
+
+type Many struct{ N int }
+
+func (m Many) M0() int { return m.N }
+func (m Many) M1() int { return m.N + 1 }
+func (m Many) M2() int { return m.N + 2 }
+func (m Many) M3() int { return m.N + 3 }
+func (m Many) M4() int { return m.N + 4 }
+func (m Many) M5() int { return m.N + 5 }
+func (m Many) M6() int { return m.N + 6 }
+func (m Many) M7() int { return m.N + 7 }
+
 type Base struct{ N int }
 
 func (b Base) Val() int { return b.N }
@@ -83,11 +100,18 @@ type gen struct {
 
 func (g *gen) pick(label string, n int) int { return rapid.IntRange(0, n-1).Draw(g.t, label) }
 
-func genProgram(t *rapid.T) *Program {
+// genProgram draws a program. With chain set, every package mostly calls the
+// generic functions that call each other (Chain3 -> Chain2 -> Sum2, Wrap ->
+// Sum2) and has many gates: the shape in which one builder waits for a
+// second one that waits for a third.
+func genProgram(t *rapid.T, chain bool) *Program {
 	g := &gen{t}
 	p := &Program{}
 	p.Pkgs = append(p.Pkgs, irbuild.Pkg{Path: "p0", Files: map[string]string{"p0.go": lib}})
 	n := 2 + g.pick("npkgs", 4)
+	if chain {
+		n++
+	}
 	for i := 1; i <= n; i++ {
 		var sb strings.Builder
 		fmt.Fprintf(&sb, "package p%d\n\nimport \"p0\"\n", i)
@@ -115,12 +139,35 @@ func genProgram(t *rapid.T) *Program {
 			sb.WriteString("type E struct {\n\tp0.Wide\n\tp0.Box[int]\n\tX int\n}\n\n")
 		}
 		sb.WriteString("func UseE(e E) int { return p0.Use(e) }\n\n")
+		// gate is a scheduling point: the "gated" schedule parks this package's builder when it
+		// builds a call to it (through the Program.SetNoReturn predicate, consulted for every static call)
+		sb.WriteString("func gate() {}\n\n")
+		if g.pick("many", 3) == 0 {
+			sb.WriteString("type EM struct {\n\tp0.Many\n\tY int\n}\n\n")
+		}
+		chainy := chain || g.pick("chainy", 2) == 0
 		nf := 1 + g.pick("nfuncs", 4)
 		for f := 0; f < nf; f++ {
 			fmt.Fprintf(&sb, "func G%d(a int, s string) (r int) {\n", f)
 			ns := 1 + g.pick("nstmts", 5)
 			for k := 0; k < ns; k++ {
-				switch g.pick("stmt", 14) {
+				kind := g.pick("stmt", 14)
+				if chainy && g.pick("chain", 5) < 3 {
+					kind = 14 + g.pick("chainkind", 6)
+				}
+				switch kind {
+				case 14:
+					sb.WriteString("\tr += p0.Sum2(a)\n")
+				case 15:
+					sb.WriteString("\tr += p0.Chain2(a)\n")
+				case 16:
+					sb.WriteString("\tr += p0.Chain3(a)\n")
+				case 17:
+					sb.WriteString("\tr += len(p0.Sum2(s))\n")
+				case 18:
+					sb.WriteString("\tr += p0.Wrap(a).Get()\n")
+				case 19:
+					sb.WriteString("\tr += len(p0.Chain3(s))\n")
 				case 0:
 					sb.WriteString("\tr += len(p0.Map([]int{a, 1}, func(x int) int { return x + a }))\n")
 				case 1:
@@ -161,6 +208,9 @@ func genProgram(t *rapid.T) *Program {
 				default:
 					sb.WriteString("\tdefer func() { r += len(p0.Map([]int{r}, func(x int) int { return x })) }()\n")
 				}
+				if g.pick("gate", 4) == 0 || chainy && g.pick("gate2", 3) == 0 {
+					sb.WriteString("\tgate()\n")
+				}
 			}
 			sb.WriteString("\treturn r\n}\n\n")
 		}
@@ -173,10 +223,20 @@ func genProgram(t *rapid.T) *Program {
 // ---------------------------------------------------------------- building under a schedule
 
 type Schedule struct {
-	Kind   string `json:"kind"` // program | per-package | duplicate | partial-first | racing-methodvalue
+	Kind   string `json:"kind"` // program | per-package | duplicate | partial-first | racing-methodvalue | gated | concurrent-methodvalue
 	Order  []int  `json:"order"`
 	Yields []int  `json:"yields"`
 	Procs  int    `json:"procs"`
+	Steps  []Step `json:"steps,omitempty"` // gated: the controller's script
+	K      int    `json:"k,omitempty"`     // concurrent-methodvalue: number of callers
+}
+
+// Step is one action of the controller of a gated schedule: start the builder
+// of package Pkg (in its own goroutine), or let the parked builder of package
+// Pkg run on to its next gate.
+type Step struct {
+	Op  string `json:"op"` // start | release
+	Pkg int    `json:"pkg"`
 }
 
 type Case struct {
@@ -230,6 +290,13 @@ func dump(b *built) (map[string]string, string) {
 	var dup []string
 	for fn := range irutil.AllFunctions(b.prog) {
 		key := fn.String() + " [" + fn.Synthetic + "]"
+		// Sum2[T] instantiated with Chain2's T and with Wrap's T are different functions that print alike
+		for _, ta := range fn.TypeArgs() {
+			if tp, ok := types.Unalias(ta).(*types.TypeParam); ok {
+				pos := b.prog.Fset.Position(tp.Obj().Pos())
+				key += fmt.Sprintf(" {%s declared at %s:%d:%d}", tp, filepath.Base(pos.Filename), pos.Line, pos.Column)
+			}
+		}
 		if fn.Parent() != nil {
 			key = fn.Parent().String() + ">" + key
 		}
@@ -396,6 +463,14 @@ func runSchedule(c *Case) (msg string, shared int, err error) {
 		}
 		wg.Wait()
 		b.prog.Build() // packages not in the drawn order
+	case "gated":
+		if e := runGated(c, b, buildPkg); e != nil {
+			return "", 0, e
+		}
+		b.prog.Build()
+	case "concurrent-methodvalue":
+		concurrentMethodValue(&sb, c, mode)
+		b.prog.Build()
 	case "partial-first":
 		for _, i := range c.Sched.Order {
 			buildPkg(i)
@@ -420,6 +495,254 @@ func runSchedule(c *Case) (msg string, shared int, err error) {
 	again, _ := dump(b)
 	compareDumps(&sb, "first build", "after a second Build", got, again)
 	return sb.String(), shared, nil
+}
+
+// ---------------------------------------------------------------- gated schedules
+
+// gates parks builders at calls to their package's gate function.
+type gates struct {
+	mu     sync.Mutex
+	open   bool
+	parked map[int][]chan struct{}
+	events atomic.Int64
+}
+
+func (g *gates) pred(f *types.Func) bool {
+	if f.Name() != "gate" || f.Pkg() == nil {
+		return false
+	}
+	var i int
+	if _, err := fmt.Sscanf(f.Pkg().Path(), "p%d", &i); err != nil {
+		return false
+	}
+	g.mu.Lock()
+	if g.open {
+		g.mu.Unlock()
+		return false
+	}
+	ch := make(chan struct{})
+	g.parked[i] = append(g.parked[i], ch)
+	g.events.Add(1)
+	g.mu.Unlock()
+	<-ch
+	return false
+}
+
+func (g *gates) release(i int) bool {
+	g.mu.Lock()
+	chs := g.parked[i]
+	delete(g.parked, i)
+	g.mu.Unlock()
+	for _, ch := range chs {
+		close(ch)
+	}
+	return len(chs) > 0
+}
+
+func (g *gates) openAll() {
+	g.mu.Lock()
+	g.open = true
+	all := g.parked
+	g.parked = map[int][]chan struct{}{}
+	g.mu.Unlock()
+	for _, chs := range all {
+		for _, ch := range chs {
+			close(ch)
+		}
+	}
+}
+
+// runGated executes the controller script of a gated schedule. The process
+// runs on one P: after every step the controller yields until nothing moves
+// any more, i.e. every builder is parked at a gate, has returned, or is
+// waiting for another builder. The oracle is the one of the other schedules
+// (buildPkg: when Build returns, everything reachable is built); the gates
+// only decide which interleaving is explored, they cannot make correct code fail.
+func runGated(c *Case, b *built, buildPkg func(int)) error {
+	defer runtime.GOMAXPROCS(runtime.GOMAXPROCS(1))
+	g := &gates{parked: map[int][]chan struct{}{}}
+	b.prog.SetNoReturn(g.pred)
+	settle := func() {
+		for idle := 0; idle < 30; {
+			before := g.events.Load()
+			runtime.Gosched()
+			if g.events.Load() == before {
+				idle++
+			} else {
+				idle = 0
+			}
+		}
+	}
+	var wg sync.WaitGroup
+	started := map[int]bool{}
+	for _, st := range c.Sched.Steps {
+		i := st.Pkg % len(b.pkgs)
+		switch st.Op {
+		case "start":
+			if started[i] {
+				continue
+			}
+			started[i] = true
+			wg.Add(1)
+			go func() {
+				defer wg.Done()
+				buildPkg(i)
+				g.events.Add(1)
+			}()
+			ev.Count("gated_builders_started", 1)
+		case "release":
+			if g.release(i) {
+				ev.Count("gated_releases_of_parked_builder", 1)
+			}
+		}
+		settle()
+	}
+	g.mu.Lock()
+	np := len(g.parked)
+	g.mu.Unlock()
+	if np > 0 {
+		ev.Count("gated_cases_with_builder_parked_at_end_of_script", 1)
+	}
+	g.openAll()
+	done := make(chan struct{})
+	go func() { wg.Wait(); close(done) }()
+	select {
+	case <-done:
+	case <-time.After(120 * time.Second):
+		return fmt.Errorf("gated schedule: builders did not finish within 120s after all gates were opened")
+	}
+	return nil
+}
+
+// ---------------------------------------------------------------- concurrent MethodValue
+
+// selections lists the method selections of the declared non-generic named
+// types of all packages, of the named types they embed, and of pointers to both.
+func selections(b *built) []*types.Selection {
+	var out []*types.Selection
+	seen := map[string]bool{}
+	add := func(T types.Type) {
+		if types.IsInterface(T) || seen[T.String()] {
+			return
+		}
+		seen[T.String()] = true
+		ms := b.prog.MethodSets.MethodSet(T)
+		for j := 0; j < ms.Len(); j++ {
+			out = append(out, ms.At(j))
+		}
+	}
+	for _, pkg := range b.pkgs {
+		var names []string
+		for n := range pkg.Members {
+			names = append(names, n)
+		}
+		sort.Strings(names)
+		for _, n := range names {
+			t, ok := pkg.Members[n].(*ir.Type)
+			if !ok {
+				continue
+			}
+			named, ok := t.Type().(*types.Named)
+			if !ok || named.TypeParams() != nil || types.IsInterface(named) {
+				continue
+			}
+			add(named)
+			add(types.NewPointer(named))
+			if st, ok := named.Underlying().(*types.Struct); ok {
+				for k := 0; k < st.NumFields(); k++ {
+					f := st.Field(k)
+					if !f.Embedded() {
+						continue
+					}
+					ft := f.Type()
+					if p, ok := ft.(*types.Pointer); ok {
+						ft = p.Elem()
+					}
+					if fn, ok := ft.(*types.Named); ok && !types.IsInterface(fn) {
+						add(fn)
+						add(types.NewPointer(fn))
+					}
+				}
+			}
+		}
+	}
+	return out
+}
+
+// concurrentMethodValue calls Program.MethodValue ("Thread-safe", "building
+// wrapper methods on demand") for the same selections from K goroutines at
+// once, on fresh programs whose packages have not been built. Oracle: a
+// serial pass over another fresh program. Every caller must get one and the
+// same function per selection, and that function must have a body when
+// MethodValue returns if it has one after the serial call.
+func concurrentMethodValue(sb *strings.Builder, c *Case, mode ir.BuilderMode) {
+	ref, err := create(c.Prog, mode)
+	if err != nil {
+		return
+	}
+	rsels := selections(ref)
+	want := make([]bool, len(rsels))
+	names := make([]string, len(rsels))
+	for i, sel := range rsels {
+		if fn := ref.prog.MethodValue(sel); fn != nil {
+			want[i] = len(fn.Blocks) > 0
+			names[i] = fn.String() + " (" + fn.Synthetic + ")"
+			if want[i] {
+				ev.Count("methodvalue_selections_built_on_demand", 1)
+			}
+		}
+	}
+	K := max(2, c.Sched.K)
+	defer runtime.GOMAXPROCS(runtime.GOMAXPROCS(max(4, c.Sched.Procs)))
+	for round := 0; round < 4; round++ {
+		b, err := create(c.Prog, mode)
+		if err != nil {
+			return
+		}
+		sels := selections(b)
+		if len(sels) != len(rsels) {
+			return
+		}
+		got := make([][]*ir.Function, K)
+		unbuilt := make([][]int, K)
+		start := make(chan struct{})
+		var wg sync.WaitGroup
+		for k := 0; k < K; k++ {
+			wg.Add(1)
+			go func(k int) {
+				defer wg.Done()
+				got[k] = make([]*ir.Function, len(sels))
+				<-start
+				for i, sel := range sels {
+					fn := b.prog.MethodValue(sel)
+					got[k][i] = fn
+					if fn != nil && want[i] && len(fn.Blocks) == 0 {
+						unbuilt[k] = append(unbuilt[k], i)
+					}
+				}
+			}(k)
+		}
+		close(start)
+		wg.Wait()
+		n := 0
+		for k := 0; k < K; k++ {
+			for _, i := range unbuilt[k] {
+				if n < 5 {
+					fmt.Fprintf(sb, "round %d: MethodValue returned %s without a body to caller %d of %d (it has one after a serial call)\n", round, names[i], k, K)
+				}
+				n++
+			}
+			for i := range sels {
+				if got[k][i] != got[0][i] && n < 5 {
+					fmt.Fprintf(sb, "round %d: MethodValue returned different functions for %s to callers 0 and %d\n", round, names[i], k)
+					n++
+				}
+			}
+		}
+		if n > 0 {
+			return
+		}
+	}
 }
 
 func compareDumps(sb *strings.Builder, an, bn string, a, b map[string]string) {
@@ -448,8 +771,12 @@ func compareDumps(sb *strings.Builder, an, bn string, a, b map[string]string) {
 	}
 }
 
-func genSchedule(t *rapid.T, npkgs int) Schedule {
-	s := Schedule{Kind: rapid.SampledFrom([]string{"program", "per-package", "per-package", "duplicate", "partial-first", "racing-methodvalue"}).Draw(t, "sched")}
+func genSchedule(t *rapid.T, npkgs int, chain bool) Schedule {
+	kinds := []string{"program", "per-package", "per-package", "duplicate", "partial-first", "racing-methodvalue", "gated", "gated", "gated", "concurrent-methodvalue", "concurrent-methodvalue"}
+	if chain {
+		kinds = []string{"gated", "gated", "gated", "per-package"}
+	}
+	s := Schedule{Kind: rapid.SampledFrom(kinds).Draw(t, "sched")}
 	perm := rapid.Permutation(seq(npkgs)).Draw(t, "order")
 	k := rapid.IntRange(1, npkgs).Draw(t, "nbuilt")
 	s.Order = perm[:k]
@@ -457,6 +784,21 @@ func genSchedule(t *rapid.T, npkgs int) Schedule {
 		s.Yields = append(s.Yields, rapid.IntRange(0, 20).Draw(t, "yield"))
 	}
 	s.Procs = rapid.SampledFrom([]int{1, 2, 4, 16}).Draw(t, "procs")
+	switch s.Kind {
+	case "gated":
+		// a script over the drawn order: start the next builder or release a started one
+		next := 0
+		for n := rapid.IntRange(2, 3*npkgs).Draw(t, "nsteps"); n > 0; n-- {
+			if next < len(perm) && (next == 0 || rapid.IntRange(0, 3).Draw(t, "op") < 3) {
+				s.Steps = append(s.Steps, Step{Op: "start", Pkg: perm[next]})
+				next++
+			} else {
+				s.Steps = append(s.Steps, Step{Op: "release", Pkg: perm[rapid.IntRange(0, next-1).Draw(t, "which")]})
+			}
+		}
+	case "concurrent-methodvalue":
+		s.K = rapid.SampledFrom([]int{2, 3, 4, 8}).Draw(t, "callers")
+	}
 	return s
 }
 
@@ -472,12 +814,13 @@ func TestParallelBuild(t *testing.T) {
 	ev.Rule(rule)
 	ev.Assume("schedules are sampled (drawn orders, Gosched noise, GOMAXPROCS in {1,2,4,16}); absence of races is 'none observed under the race detector'")
 	ev.Check(t, "TestParallelBuild", func(rt *rapid.T) {
-		p := genProgram(rt)
+		chain := rapid.IntRange(0, 3).Draw(rt, "theme") == 0
+		p := genProgram(rt, chain)
 		mode := ir.BuilderMode(0)
-		if rapid.Bool().Draw(rt, "instantiate") {
+		if rapid.Bool().Draw(rt, "instantiate") || chain && rapid.Bool().Draw(rt, "instantiate2") {
 			mode |= ir.InstantiateGenerics
 		}
-		c := &Case{Prog: p, Mode: uint(mode), Sched: genSchedule(rt, len(p.Pkgs))}
+		c := &Case{Prog: p, Mode: uint(mode), Sched: genSchedule(rt, len(p.Pkgs), chain)}
 		js, _ := json.Marshal(c)
 		ev.Begin("TestParallelBuild", "json", js)
 		msg, shared, err := runSchedule(c)
@@ -487,6 +830,9 @@ func TestParallelBuild(t *testing.T) {
 			rt.Skip(err.Error())
 		}
 		classes := []string{"sched_" + c.Sched.Kind}
+		if chain {
+			classes = append(classes, "chain_theme")
+		}
 		if mode&ir.InstantiateGenerics != 0 {
 			classes = append(classes, "instantiate_generics")
 		}
